@@ -70,6 +70,7 @@ func (x *Exec) logCall(st *State, key string, args []Val, ts []types.Type) {
 		return
 	}
 	n := st.comp("N!"+sanitize(key), SI)
+	dn := st.comp("D!"+sanitize(key), SI)
 	for j, a := range args {
 		var t types.Type
 		if j < len(ts) {
@@ -85,6 +86,20 @@ func (x *Exec) logCall(st *State, key string, args []Val, ts []types.Type) {
 		name := fmt.Sprintf("A!%s!%d", sanitize(key), j)
 		arr := st.comp(name, ArrSort(SI, term.Sort))
 		st.setComp(name, Sto(arr, n, term))
+		// log of the calls made directly by this function (never touched by callee contracts)
+		dname := fmt.Sprintf("DA!%s!%d", sanitize(key), j)
+		darr := st.comp(dname, ArrSort(SI, term.Sort))
+		st.setComp(dname, Sto(darr, dn, term))
+	}
+	// index of the latest call by argument value, for the arguments a contract asks for (lastcall)
+	if sig := x.eng.callSigs[key]; sig != nil {
+		for j, name := range sig.names {
+			if j < len(args) && name != "" && x.eng.logKeys["lastcall:"+key+":"+name] {
+				cname := fmt.Sprintf("L!%s!%d", sanitize(key), j)
+				arr := st.comp(cname, ArrSort(SI, SI))
+				st.setComp(cname, Sto(arr, st.scalar(args[j], sig.types[j]), n))
+			}
+		}
 	}
 	st.setComp("N!"+sanitize(key), Add(n, TInt(1)))
 	// direct calls made by the function under verification itself (never havoc'd by callee contracts)
@@ -107,6 +122,9 @@ func (x *Exec) logRet(st *State, key string, res Val, resT types.Type) {
 		name := fmt.Sprintf("R!%s!%d", sanitize(key), j)
 		arr := st.comp(name, ArrSort(SI, term.Sort))
 		st.setComp(name, Sto(arr, n, term))
+		dname := fmt.Sprintf("DR!%s!%d", sanitize(key), j)
+		darr := st.comp(dname, ArrSort(SI, term.Sort))
+		st.setComp(dname, Sto(darr, Sub(st.comp("D!"+sanitize(key), SI), TInt(1)), term))
 	}
 }
 
@@ -350,10 +368,22 @@ func resultTVs(res Val, resT types.Type) []TV {
 func paramNames(c *Contract, fn *ssa.Function, sig *types.Signature) ([]string, []types.Type) {
 	var names []string
 	var ts []types.Type
-	if fn != nil {
+	if fn != nil && len(fn.Params) > 0 {
 		for _, p := range fn.Params {
 			names = append(names, p.Name())
 			ts = append(ts, p.Type())
+		}
+		return names, ts
+	}
+	if fn != nil && sig != nil {
+		// external function: no SSA parameters; use the signature
+		if r := sig.Recv(); r != nil {
+			names = append(names, "recv")
+			ts = append(ts, r.Type())
+		}
+		for i := 0; i < sig.Params().Len(); i++ {
+			names = append(names, sig.Params().At(i).Name())
+			ts = append(ts, sig.Params().At(i).Type())
 		}
 		return names, ts
 	}
@@ -392,6 +422,7 @@ type Loc struct {
 	sort  string // sort of the component
 	ref   *Term  // nil: whole scalar component / any index
 	above *Term  // with ref == nil: only objects with ref > above (objects allocated since)
+	log   string // call log of this key: append-only havoc
 }
 
 func (x *Exec) locsOf(e *Env, clauses []*Clause) []Loc {
@@ -431,16 +462,7 @@ func (x *Exec) evalLoc(e *Env, le Expr, cl *Clause) (out []Loc) {
 				res = append(res, mk(hn, hasSort, ref), mk(vn, ArrSort(SI, ArrSort(SI, s)), ref))
 			case "calls":
 				key := exprKey(v.Args[0])
-				res = append(res, Loc{comp: "N!" + sanitize(key), sort: SI})
-				if sig := x.eng.callSigs[key]; sig != nil {
-					for j, t := range sig.types {
-						s := sortOf(t)
-						if s == "" {
-							s = SI
-						}
-						res = append(res, Loc{comp: fmt.Sprintf("A!%s!%d", sanitize(key), j), sort: ArrSort(SI, s)})
-					}
-				}
+				res = append(res, Loc{comp: "N!" + sanitize(key), sort: SI, log: key})
 			case "fields":
 				p := e.eval(v.Args[0])
 				pt, ok := under(p.T).(*types.Pointer)
@@ -466,7 +488,7 @@ func (x *Exec) evalLoc(e *Env, le Expr, cl *Clause) (out []Loc) {
 				}
 			case "chan":
 				ch := e.toTerm(e.eval(v.Args[0]))
-				for _, c := range []string{"CH!len", "CH!sent", "CH!rcvd"} {
+				for _, c := range []string{"CH!sent", "CH!rcvd", "CH!own"} {
 					res = append(res, mk(c, ArrSort(SI, SI), ch))
 				}
 				res = append(res, mk("CH!closed", ArrSort(SI, SB), ch))
@@ -567,6 +589,48 @@ func (x *Exec) havocLocsEnv(st *State, e *Env, clauses []*Clause) {
 }
 
 func (x *Exec) havocLoc(st *State, l Loc) {
+	if l.log != "" {
+		// a call log only grows: the counter increases, earlier entries are kept
+		key := sanitize(l.log)
+		oldN := st.comp("N!"+key, SI)
+		newN := st.havocComp("N!"+key, SI)
+		st.assume(Ge(newN, oldN))
+		prefix := "A!" + key + "!"
+		rprefix := "R!" + key + "!"
+		for name, t := range st.heap {
+			if strings.HasPrefix(name, "L!"+key+"!") {
+				st.havocComp(name, t.Sort)
+			}
+		}
+		names := map[string]string{}
+		for name, t := range st.heap {
+			if strings.HasPrefix(name, prefix) || strings.HasPrefix(name, rprefix) {
+				names[name] = t.Sort
+			}
+		}
+		if sig := x.eng.callSigs[l.log]; sig != nil {
+			for j, t := range sig.types {
+				s := sortOf(t)
+				if s == "" {
+					s = SI
+				}
+				names[fmt.Sprintf("A!%s!%d", key, j)] = ArrSort(SI, s)
+			}
+		}
+		for j, t := range x.eng.callRets[l.log] {
+			if s := sortOf(t); s != "" {
+				names[fmt.Sprintf("R!%s!%d", key, j)] = ArrSort(SI, s)
+			}
+		}
+		for name, sort := range names {
+			cur := st.comp(name, sort)
+			n := st.havocComp(name, sort)
+			x.counter++
+			i := Term{fmt.Sprintf("q.i!%d", x.counter), SI}
+			st.assume(Forall([]Term{i}, Imp(Lt(i, oldN), Eq(Sel(n, i), Sel(cur, i)))))
+		}
+		return
+	}
 	if l.ref == nil && l.above != nil {
 		cur := st.comp(l.comp, l.sort)
 		n := st.havocComp(l.comp, l.sort)
@@ -623,14 +687,14 @@ func (x *Exec) frameCheck(st *State, fr *Frame, base map[string]Term, baseWM Ter
 		if strings.HasPrefix(comp, "C!") || strings.HasPrefix(comp, "B!") {
 			// cells and closure objects: only fresh ones may be written unless declared
 		}
-		if strings.HasPrefix(comp, "A!") || strings.HasPrefix(comp, "R!") || strings.HasPrefix(comp, "D!") || strings.HasPrefix(comp, "MU!") {
+		if strings.HasPrefix(comp, "A!") || strings.HasPrefix(comp, "R!") || strings.HasPrefix(comp, "D!") || strings.HasPrefix(comp, "DA!") || strings.HasPrefix(comp, "DR!") || strings.HasPrefix(comp, "L!") || strings.HasPrefix(comp, "MU!") {
 			continue // argument logs are covered by their N! counter
 		}
 		ls := byComp[comp]
 		whole := false
 		for _, l := range ls {
 			if l.ref == nil && l.above == nil {
-				whole = true
+				whole = true // includes call logs (their append-only shape is by construction)
 			}
 		}
 		if whole {
